@@ -75,6 +75,8 @@ def fields_for(Fax):
 
 
 def check(rep, an, tier):
+    R.rule_alias(rep, an.model, "dreye.api.estimator", "ReceptorEstimator", "gamut_l1_scaling", "hull_l1_scaling")
+    R.rule_alias(rep, an.model, "dreye.api.estimator", "ReceptorEstimator", "gamut_dist_scaling", "hull_dist_scaling")
     spec = hooks()
     for meth in ("hull_l1_scaling", "hull_dist_scaling"):
         for rel in (True, False):
@@ -99,6 +101,13 @@ def check(rep, an, tier):
                                       construct=f"{o} ↛ result of {meth}", entry=entry, config=cfg,
                                       msg=f"with relative=False the scaled absolute captures still depend on {o}: the scaling is no longer "
                                           f"one common factor on the light-induced capture")
+                    if meth == "hull_l1_scaling":
+                        # the reference is the smallest single-source maximum — each source alone at its UPPER bound: lb has no part in it
+                        rep.check("R-NOFLOW", "the intensity reference is taken at the upper bounds (independent of lb)",
+                                  "self.lb" not in {o.split("|")[0] for o in v.data}, where=res.fn.loc(), construct="self.lb ↛ result of hull_l1_scaling",
+                                  entry=entry, config=cfg,
+                                  msg="the common factor depends on the lower bounds (e.g. A·(ub − lb)): the largest light-induced capture is then "
+                                      "not the smallest single-source maximum A·ub whenever lb ≠ 0")
                     # internal calls to estimator methods that take `relative`
                     for ev in res.events("call"):
                         fn = ev.d["callee"]
